@@ -353,7 +353,44 @@ func (rd *vcStreamReader) Step(limit int) (int, error) {
 		}
 		rd.verify("Peek", p)
 		k := vcMinInt(r.rng(1, 64), big-1)
-		switch r.intn(4) {
+		switch r.intn(8) {
+		case 4:
+			var b byte
+			b, err = rd.Rd.ReadByte()
+			if err == nil {
+				rd.verify("ReadByte", []byte{b})
+				consumed = 1
+			}
+		case 5:
+			var q string
+			q, err = rd.Rd.ReadString(k)
+			if err == nil {
+				rd.verify("ReadString", []byte(q))
+				consumed = k
+			}
+		case 6:
+			d, want := rd.untilTarget(k)
+			var q []byte
+			q, err = rd.Rd.Until(d)
+			if err == nil {
+				if len(q) != want {
+					rd.Bad = fmt.Sprintf("Until(0x%02x) after Peek returned %d bytes, the first occurrence is after %d", d, len(q), want)
+				}
+				rd.verify("Until", q)
+				consumed = len(q)
+			}
+		case 7:
+			var sl Reader
+			sl, err = rd.Rd.Slice(k)
+			if err == nil {
+				var q []byte
+				q, err = sl.Next(k)
+				if err == nil {
+					rd.verify("Slice.Next", q)
+				}
+				sl.Release()
+				consumed = k
+			}
 		case 0:
 			if rd.IO != nil {
 				q := make([]byte, k)
